@@ -2222,6 +2222,212 @@ def _pure_read(e, allow_attr=True):
     return False
 
 
+def strip_pure_memos(trees, base, log):
+    """N10.  A per-object memo -- a new field bound to an empty dict in the constructor, read and written in one method only, where every
+    value stored under a key is a pure function of the key and of fields only constructors bind -- answers exactly what the expression
+    answers.  The method is rewritten as if the memo were always empty: `self.M.get(k)` -> None, `k in self.M` -> False, the stores are
+    dropped.  A memo that is not per object (class level) or not pure is left alone, for the rules to see."""
+    attr_rebound, item_rebound = _rebound_attrs(trees)
+    props = _property_backing(trees)
+
+    def pure(e, keyvars):
+        for x in ast.walk(e):
+            if isinstance(x, ast.Call):
+                f = _txt(x.func)
+                if not (f.startswith('math.') or (f in PURE_CALLS and not f.startswith(('print', 'logger', 'traceback')))) or x.keywords:
+                    return False
+            elif isinstance(x, ast.Name):
+                if isinstance(x.ctx, ast.Load) and x.id not in keyvars and x.id not in ('self', 'math', 'float', 'int', 'abs', 'min', 'max', 'len', 'round'):
+                    return False
+            elif isinstance(x, (ast.Lambda, ast.ListComp, ast.GeneratorExp, ast.SetComp, ast.DictComp, ast.Await, ast.Yield, ast.YieldFrom, ast.NamedExpr,
+                                ast.Subscript, ast.Starred)):
+                return False
+        return _stable_attr_paths(e, props, family_rebound[0], family_rebound[1])
+
+    all_classes = {c.name: c for t in trees.values() for c in t.body if isinstance(c, ast.ClassDef)}
+
+    def family(cname):
+        """the class, its ancestors and its descendants (the objects whose methods run on the same `self`)"""
+        fam = set()
+
+        def up(n):
+            if n in fam or n not in all_classes:
+                return
+            fam.add(n)
+            for b_ in all_classes[n].bases:
+                up(_txt(b_).split('[')[0].split('.')[-1])
+        up(cname)
+        changed = True
+        while changed:
+            changed = False
+            for n, cd in all_classes.items():
+                if n not in fam and any(_txt(b_).split('[')[0].split('.')[-1] in fam and _txt(b_).split('[')[0].split('.')[-1] in
+                                        ({cname} | desc) for b_ in cd.bases):
+                    fam.add(n)
+                    desc.add(n)
+                    changed = True
+        return fam
+
+    def rebound_in(fam):
+        """(attributes, item containers) re-bound outside constructors by methods of the family, or through a receiver other than self anywhere"""
+        ar, ir = set(), set()
+        for t2 in trees.values():
+            for cd in [x for x in t2.body if isinstance(x, ast.ClassDef)] + [None]:
+                fns_ = [f for f in (cd.body if cd is not None else t2.body) if isinstance(f, (ast.FunctionDef, ast.AsyncFunctionDef))]
+                for f in fns_:
+                    for x in ast.walk(f):
+                        tgt = None
+                        if isinstance(x, ast.Attribute) and isinstance(x.ctx, (ast.Store, ast.Del)):
+                            tgt, into = x, ar
+                        elif isinstance(x, ast.Subscript) and isinstance(x.ctx, (ast.Store, ast.Del)) and isinstance(x.value, ast.Attribute):
+                            tgt, into = x.value, ir
+                        elif isinstance(x, ast.Call) and isinstance(x.func, ast.Attribute) and isinstance(x.func.value, ast.Attribute) \
+                                and x.func.attr in ('pop', 'popitem', 'clear', 'update', 'setdefault', 'remove', 'insert', 'sort', 'reverse', 'append', 'extend'):
+                            tgt, into = x.func.value, ir
+                        if tgt is None:
+                            continue
+                        own = _txt(tgt.value) == 'self'
+                        if own and (cd is None or cd.name not in fam):
+                            continue                  # another kind of object
+                        if own and f.name in ('__init__', '__new__') and into is ar:
+                            continue
+                        into.add(tgt.attr)
+        return ar, ir
+
+    family_rebound = [set(), set()]
+    desc = set()
+    for mname, tree in trees.items():
+        b = base.get(mname, {'consts': [], 'funcs': {}, 'classes': {}})
+        for c in [c for c in tree.body if isinstance(c, ast.ClassDef)]:
+            desc.clear()
+            family_rebound[:] = [None, None]
+            init = next((m for m in c.body if isinstance(m, ast.FunctionDef) and m.name == '__init__'), None)
+            if init is None:
+                continue
+            known_fields = set(base.get('__attrs__', []))
+            for st in list(_body(init)):
+                tg = st.targets[0] if isinstance(st, ast.Assign) and len(st.targets) == 1 else (st.target if isinstance(st, ast.AnnAssign) else None)
+                val = getattr(st, 'value', None)
+                if not (isinstance(tg, ast.Attribute) and _txt(tg.value) == 'self' and val is not None
+                        and ((isinstance(val, ast.Dict) and not val.keys) or (isinstance(val, ast.Call) and _txt(val.func) == 'dict' and not val.args and not val.keywords))):
+                    continue
+                M = tg.attr
+                if M in known_fields:
+                    continue
+                if family_rebound[0] is None:
+                    family_rebound[:] = rebound_in(family(c.name))
+                # every other mention of the attribute name, anywhere
+                uses = []
+                for t2 in trees.values():
+                    for fn in ast.walk(t2):
+                        if isinstance(fn, (ast.FunctionDef, ast.AsyncFunctionDef)):
+                            for x in _walk_shallow(fn):
+                                if isinstance(x, ast.Attribute) and x.attr == M and x is not tg:
+                                    uses.append((fn, x))
+                    for cc in t2.body:
+                        if isinstance(cc, ast.ClassDef):
+                            for s2 in cc.body:
+                                if any(isinstance(t, ast.Name) and t.id == M for t in (s2.targets if isinstance(s2, ast.Assign) else [getattr(s2, 'target', None)])):
+                                    uses.append((cc, s2))
+                fns = {id(f): f for f, _x in uses}
+                if len(fns) != 1:
+                    continue
+                fn = next(iter(fns.values()))
+                if not isinstance(fn, ast.FunctionDef) or fn is init or fn not in c.body:
+                    continue
+                if any(_txt(x.value) != 'self' for _f, x in uses):
+                    continue
+                # classify each use
+                gets, ins, loads, stores = [], [], [], []
+                ok = True
+                parents = {}
+                for p in ast.walk(fn):
+                    for ch in ast.iter_child_nodes(p):
+                        parents[id(ch)] = p
+                for _f, x in uses:
+                    p = parents.get(id(x))
+                    if isinstance(p, ast.Attribute) and p.attr == 'get' and isinstance(parents.get(id(p)), ast.Call) and parents[id(p)].func is p \
+                            and len(parents[id(p)].args) == 1 and not parents[id(p)].keywords:
+                        gets.append(parents[id(p)])
+                    elif isinstance(p, ast.Compare) and len(p.ops) == 1 and isinstance(p.ops[0], (ast.In, ast.NotIn)) and p.comparators[0] is x:
+                        ins.append(p)
+                    elif isinstance(p, ast.Subscript) and p.value is x and isinstance(p.ctx, ast.Load):
+                        loads.append(p)
+                    elif isinstance(p, ast.Subscript) and p.value is x and isinstance(p.ctx, ast.Store):
+                        stores.append(p)
+                    else:
+                        ok = False
+                if not ok or not stores or (loads and not ins):
+                    continue
+                keyvars = set()
+                for k in [g.args[0] for g in gets] + [i.left for i in ins] + [l.slice for l in loads] + [s_.slice for s_ in stores]:
+                    if not _pure_read(k, allow_attr=False):
+                        ok = False
+                    keyvars |= {n.id for n in ast.walk(k) if isinstance(n, ast.Name)}
+                params = {a.arg for a in fn.args.args}
+                rebound_keys = any(isinstance(n, ast.Name) and isinstance(n.ctx, ast.Store) and n.id in keyvars for n in ast.walk(fn))
+                if not ok or not keyvars <= params or rebound_keys or len({_txt(k) for k in [g.args[0] for g in gets] + [i.left for i in ins] + [l.slice for l in loads]
+                                                                            + [s_.slice for s_ in stores]}) != 1:
+                    continue
+                # every stored value: a pure function of the key and stable fields (a local is followed to the assignment in front of the store)
+                store_stmts = []
+
+                def find_block(stmts):
+                    for i, s2 in enumerate(stmts):
+                        if isinstance(s2, ast.Assign) and any(t is sp for t in s2.targets for sp in stores):
+                            store_stmts.append((stmts, i, s2))
+                        for fld in ('body', 'orelse', 'finalbody'):
+                            sub = getattr(s2, fld, None)
+                            if isinstance(sub, list) and sub and isinstance(sub[0], ast.stmt):
+                                find_block(sub)
+                find_block(fn.body)
+                if len(store_stmts) != len(stores):
+                    continue
+                values = []
+                for (stmts, i, s2) in store_stmts:
+                    if len(s2.targets) != 1:
+                        ok = False
+                        break
+                    v = s2.value
+                    if isinstance(v, ast.Name):
+                        prev = stmts[i - 1] if i > 0 else None
+                        nm, pv = _single_name_assign(prev) if prev is not None else (None, None)
+                        if nm != v.id:
+                            ok = False
+                            break
+                        v = pv
+                    if not pure(v, keyvars):
+                        ok = False
+                        break
+                    values.append(v)
+                if not ok or len({_txt(v) for v in values}) != 1:
+                    continue
+                # loads `self.M[k]` are only allowed where the key is known to be present: rewritten to the pure expression itself
+                value = values[0]
+                repl = {}
+                for g in gets:
+                    repl[id(g)] = ast.Constant(value=None)
+                for i_ in ins:
+                    repl[id(i_)] = ast.Constant(value=isinstance(i_.ops[0], ast.NotIn))
+                for l in loads:
+                    repl[id(l)] = copy.deepcopy(value)
+
+                class _R(ast.NodeTransformer):
+                    def generic_visit(self, node):
+                        super().generic_visit(node)
+                        r = repl.get(id(node))
+                        return ast.copy_location(r, node) if r is not None else node
+
+                for (stmts, i, s2) in store_stmts:
+                    stmts[i] = ast.copy_location(ast.Pass(), s2)
+                _R().visit(fn)
+                fn.body = _simplify_block(fn.body)
+                init.body.remove(st)
+                if not init.body:
+                    init.body.append(ast.Pass())
+                log.append(f'N10 {mname}: per-object memo {c.name}.{M} of {fn.name}() is pure (value `{_txt(value)[:50]}` of the key and constructor-bound fields): removed')
+
+
 def _paths_read(e):
     """texts of the attribute / subscript access paths read by e"""
     out = set()
@@ -3335,6 +3541,7 @@ def run(trees, baseline=None):
             _BetaReduce().visit(t)
     fold_self_class_constants(trees, base, log)
     inline_derived_fields(trees, base, log)
+    strip_pure_memos(trees, base, log)
     propagate_locals(trees, base, log)
     strip_noops(trees, base, log)                 # conversions exposed by the propagation
     flatten_records(trees, base, log)
